@@ -93,6 +93,46 @@ CHECKS = {
         "DESIGN.md section 8, C07",
         "The twin never experienced the other operations, which is what 'unchanged' means; internal sharing is not judged.",
     ),
+    "C08": (
+        "fault_enumeration",
+        "runtime monitoring: the graph's reported input contract is the claim, the real run under recording processors and call log is the judge; every single required input omitted in turn",
+        "For generated programs and configurations (bind/select/with_entrypoint/run-time select, nested bindings, cycles; derived "
+        "before and after use) the reported contract is supplied exactly (per entry point) and must be accepted and sufficient; each "
+        "single required input is then omitted in turn on both runners and must raise MissingInputError before any node function, "
+        "event or shutdown is observed; bookkeeping (disjointness, bind/unbind) checked on the same objects.",
+        "DESIGN.md section 8, C08",
+        "Two known findings (nested cyclic graph with several entry points; first-producer-only edges with an entry point on a later same-name producer) are listed in known_findings.json.",
+    ),
+    "C11": (
+        "fault_enumeration",
+        "runtime monitoring: fault injection at every leaf callable (and sampled pairs, and chosen map items) with identity oracle on the surfaced exception and step-level oracle on partial values",
+        "Every function node and gate of every generated program (flat, gated, nested to depth 3) fails in turn, plus pairs; also "
+        "items of runner.map and of map_over nodes at depth 1-2; raise and continue modes, both runners, random completion orders. "
+        "The surfaced object must be the very exception the first-failing node raised; FAILED values must contain all earlier-step "
+        "values, nothing of the failing node or of any later step, and only fault-free values.",
+        "DESIGN.md section 8, C11",
+        "Same-step siblings of the failing node are optional, as in the statement.",
+    ),
+    "C12": (
+        "exploration",
+        "runtime monitoring: single-pass span-grammar checker over the event stream delivered to recording (and yield-injecting async) processors, cross-checked with the call log",
+        "All program families run on both runners under natural and controlled schedules with processors that suspend at every "
+        "emission, fault-free and with failing nodes, post-execution failures (on_missing=error) and rejected calls; every delivered "
+        "stream is checked against the span-tree grammar, RunEnd status against what the caller saw, shutdown count/position, and "
+        "NodeStart counts against function invocations + cache hits.",
+        "DESIGN.md section 8, C12",
+        "PAUSED calls are not judged.",
+    ),
+    "C13": (
+        "fault_enumeration",
+        "runtime monitoring: processor fault injection at every event index / every event / shutdown, differential against the processor-free run, healthy-processor stream compared as span trees",
+        "For each generated execution a processor raises at each index of the baseline stream in turn (sync and async classes, "
+        "before or after a healthy recorder that may really suspend); result, error identity and node invocations must equal the "
+        "processor-free baseline and the healthy recorder must still get the complete stream and one shutdown. Emission sites hit "
+        "are tabulated in the evidence.",
+        "DESIGN.md section 8, C13",
+        "Only Exception subclasses are raised by the faulty processor.",
+    ),
 }
 
 NOT_YET = {}
